@@ -142,6 +142,24 @@ KF_C13_MergedNodesKeepAdditions(S, snap, keys, after) ==
                 /\ AssignOK(S, snap, keys, kn, assign)
                 /\ AfterOK(S, snap, keys, kn, kr, assign, FALSE, after)
 
+\* The same deviation when the records that were applied are not known (a flipped byte changed the text of
+\* the file, the altered records were applied, and only the final checksum failed): nothing the import
+\* created survives, nothing that existed was removed or changed, but pre-existing nodes gained labels /
+\* properties and relationships between pre-existing nodes were added
+KF_C13_MergedNodesKeepAdditions_Unknown(S, keys, after) ==
+    /\ ~SameDump(S, after)
+    /\ keys # <<>>
+    /\ WellFormed(after)
+    /\ NodeIds(after) = NodeIds(S)
+    /\ \A id \in NodeIds(S) :
+          LET a == NodeOf(after, id)
+              b == NodeOf(S, id)
+          IN /\ Labels(b) \subseteq Labels(a)
+             /\ Keys(b.props) \subseteq Keys(a.props)
+             /\ \A k \in Keys(b.props) : a.props[k] = b.props[k]
+    /\ \A i \in DOMAIN S.rels : \E j \in DOMAIN after.rels :
+          after.rels[j].id = S.rels[i].id /\ RelSig(after.rels[j]) = RelSig(S.rels[i])
+
 \* ------------------------------------------------------------------ C13: the import as the code runs it
 \* (normal form used by the operational model: nodes = set of [id, labels(set), props], rels = set of
 \*  [id, src, dst, type, props]; created = ids created by this import; remap = position -> id)
